@@ -49,6 +49,8 @@ def run(ck, ctx):
     ck.nd("that the saved manifest's contents list exactly the surviving objects (value-level)")
     ck.rule("R12.8", WRITER_TEXT)
     ck.rule("R12.11", IDS_TEXT)
+    from . import c14 as _c14lt
+    ck.rule("R12.13", _c14lt.RECORD_LIMIT_TEXT + " (shared with C14 R14.17: a confirmed flush must stay recoverable)")
     ck.rule("R12.12", "nothing is deleted that a manifest may still come to reference: a key handed to ObjectStore::delete in compaction code comes from "
                       "the segment entries compaction itself folded and unlisted, never from a listing of the store (shared with C13 R13.17)")
     ck.rule("R12.9", "compaction unlists exactly what it folded: manifest entries are dropped by membership in the list of segments whose deltas "
@@ -71,6 +73,8 @@ def run(ck, ctx):
         _r127(ck, prog, fns, cfg)
         writer_rule(ck, prog, cfg, "R12.8")
         ids_rule(ck, prog, cfg, "R12.11")
+        from . import c14 as _c14l
+        _c14l.record_limit_rule(ck, prog, cfg, "R12.13")
         from . import c13 as _c13d
         from .core import Only as _OnlyD
         _c13d._r1317(_OnlyD(ck, {"R13.17": "R12.12"}), prog, cfg)
